@@ -491,6 +491,7 @@ def sym_printer(vc):
                     kw[k] = v
             step = it.call(pr, [], kw)
             func = step.env.lookup('func')      # the row printer handed to selected resources by printer.step
+            it.track_row_reads = True
             r = mk_resource(it, 'rows')
             r.attrs['res'].attrs['schema'] = mk_schema_obj(it)
             tag = '[%s]' % ','.join(sorted(opts)) if opts else '[default]'
@@ -511,6 +512,10 @@ def sym_printer(vc):
                 # object that later steps are free to edit in place
                 from contracts.common import retained_in
                 check(it, 'no-live-row-kept-past-its-yield' + tag, not retained_in(env, row))
+                # ... and whatever is reported about the row is read off it BEFORE it is handed on
+                yi = [i for i, e in enumerate(events) if e.kind == 'Yield']
+                check(it, 'row-not-looked-at-again-after-it-was-handed-downstream' + tag, len(yi) == 1 and
+                      not [e for e in events[yi[0] + 1:] if e.kind == 'RowRead' and e.obj is row])
                 check(it, 'nothing-printed-mid-stream' + tag, not calls(events, target='header_print') and
                       not calls(events, target='table_print'))
                 check(it, 'no-buffering' + tag, not [e for e in events if e.kind == 'Drain'])
